@@ -34,7 +34,7 @@ METHODS = [c for c in itertools.product(["t_leaf", "t_const", "t_int", "t_graph"
                                         [None, "same", "float32", "float64", "int64", "complex64"], CONSTS, [True, False])
            if not (c[1] == "copy" and (c[2] is not None or c[4] is False))]
 N_LAT = len(LATTICE) + len(METHODS)
-TIERS = {"quick": {"cases": N_LAT + 2000}, "thorough": {"cases": N_LAT + 600000}}
+TIERS = {"quick": {"cases": N_LAT + 8000}, "thorough": {"cases": N_LAT + 600000}}
 FLOORS = {"quick": {"lattice_cells": N_LAT, "model_checks": 15000, "creation_compared": 1500},
           "thorough": {"lattice_cells": N_LAT, "model_checks": 15000, "creation_compared": 300000}}
 ROUTINES = ["zeros", "ones", "empty", "full", "zeros_like", "ones_like", "empty_like", "full_like", "arange", "linspace", "logspace", "geomspace", "eye", "identity"]
